@@ -27,7 +27,7 @@ func init() {
 			"StorageDissolvedDecay is exercised with decay disabled (as the property states)",
 		},
 		Workloads: []core.Workload{
-			{Name: "mass", Variant: "plain", N: core.Tiered(8*40, 8*8000), Run: c12Case},
+			{Name: "mass", Variant: "plain", N: core.Tiered(8*120, 8*8000), Run: c12Case},
 		},
 		RequireTags: func(string) []string {
 			return []string{"InstreamFineSediment:lumped-branch", "InstreamFineSediment:flood", "InstreamFineSediment:deposition", "InstreamFineSediment:flood+deposition", "InstreamFineSediment:remobilisation",
